@@ -7,7 +7,7 @@ MkP(mm, n, s) ==
    ss |-> s % 60, sod |-> s, us |-> 0, fu |-> 0, frac |-> FALSE, zh |-> 0, zm |-> 0, xd |-> 0]
 T(hh, mi, ss, dom, doy, dow, woy) == [hh |-> hh, mi |-> mi, ss |-> ss, dom |-> dom, doy |-> doy, dow |-> dow, woy |-> woy,
                                       zu |-> TRUE, zh |-> 0, zm |-> 0]
-Times == {<<6, -1, -1>>, <<23, 30, -1>>, <<0, 0, 15>>, <<-1, 30, -1>>, <<-1, 5, 59>>, <<-1, -1, 15>>, <<-1, -1, -1>>}
+Times == {<<24, -1, -1>>, <<6, -1, -1>>, <<23, 30, -1>>, <<0, 0, 15>>, <<-1, 30, -1>>, <<-1, 5, 59>>, <<-1, -1, 15>>, <<-1, -1, -1>>}
 DaysD == {<<0, 0, 0, 0>>, <<1, 0, 0, 0>>, <<29, 0, 0, 0>>, <<30, 0, 0, 0>>, <<31, 0, 0, 0>>, <<0, 1, 0, 0>>, <<0, 60, 0, 0>>,
           <<0, 366, 0, 0>>, <<0, 0, 1, 0>>, <<0, 0, 7, 0>>, <<0, 0, 3, 1>>, <<0, 0, 7, 52>>, <<0, 0, 1, 53>>}
 Starts == {<<2019, 12, 31>>, <<2020, 1, 30>>, <<2020, 2, 28>>, <<2020, 2, 29>>, <<2020, 12, 28>>, <<2021, 1, 3>>}
